@@ -61,6 +61,16 @@ def _unicode_decode(*a):
     return UnicodeDecodeError("utf-8", b"\xff", 0, 1, a[0] if a else "")
 
 
+def _exc_group(*a):
+    return ExceptionGroup(a[0] if a else "", [ValueError("inner one"), KeyError("inner two")])
+
+
+def _falcon_error(*a):
+    import falcon
+
+    return falcon.HTTPBadRequest(title="from the implementation", description=a[0] if a else None)
+
+
 CLASSES = {
     "ValueError": ValueError, "KeyError": KeyError, "TypeError": TypeError, "RuntimeError": RuntimeError,
     "AttributeError": AttributeError, "OSError": OSError, "BrokenPipeError": BrokenPipeError,
@@ -68,6 +78,7 @@ CLASSES = {
     "ZeroDivisionError": ZeroDivisionError, "PermissionError": PermissionError, "LookupError": LookupError,
     "ArrowInvalid": _arrow_invalid, "RpcError": _rpc_error, "VersionError": VersionError,
     "UnicodeDecodeError": _unicode_decode, "Exception": Exception,
+    "ExceptionGroup": _exc_group, "HTTPBadRequest": _falcon_error,
     "UserError": UserError, "UserValueError": UserValueError, "UserStrError": UserStrError,
     "MethodNotImplementedError": MethodNotImplementedError, "ProtocolVersionError": ProtocolVersionError,
     "SessionLostError": SessionLostError, "ServerDrainingError": ServerDrainingError,
@@ -75,9 +86,56 @@ CLASSES = {
 }
 
 
+SURR_MARK = "\uf8ff"      # "\uf8ffdcff" in a message parameter stands for the lone surrogate U+DCFF (a request
+#                           parameter cannot carry one; the implementation builds the text on its side)
+
+
+def decode_text(msg: str) -> str:
+    if SURR_MARK not in msg:
+        return msg
+    parts = msg.split(SURR_MARK)
+    return parts[0] + "".join(chr(int(p[:4], 16)) + p[4:] for p in parts[1:])
+
+
 def make_exc(cls: str, msg: str, argc: int) -> BaseException:
-    f = CLASSES[cls]
-    return f() if argc == 0 else f(msg)
+    """cls = "Name" or "Name+cause" / "Name+context" / "Name+deep" (any combination); argc: 0 C(), 1 C(text),
+    2 C(text, 42), 3 C(12345) (a non-string argument)."""
+    f = CLASSES[cls.split("+")[0]]
+    text = decode_text(msg)
+    if argc == 0:
+        return f()
+    if argc == 2:
+        return f(text, 42)
+    if argc == 3:
+        return f(12345)
+    return f(text)
+
+
+CAUSE_TEXT = "the original failure " + "c" * 20000
+DEEP_FRAMES = 300
+
+
+def _raise_deep(exc: BaseException, n: int):
+    if n <= 0:
+        raise exc
+    _raise_deep(exc, n - 1)
+
+
+def _raise(exc: BaseException, opts: list[str]):
+    """Raise exc plainly, `from` a cause, inside an except block (implicit context), and/or from deep recursion."""
+    depth = DEEP_FRAMES if "deep" in opts else 0
+    if "cause" in opts:
+        try:
+            raise KeyError(CAUSE_TEXT)
+        except KeyError as k:
+            exc.__cause__ = k
+            _raise_deep(exc, depth)
+    if "context" in opts:
+        try:
+            raise LookupError(CAUSE_TEXT)
+        except LookupError:
+            _raise_deep(exc, depth)
+    _raise_deep(exc, depth)
 
 
 TRUTH = threading.local()      # .log : list of dicts appended by the implementation in the serving thread
@@ -90,7 +148,7 @@ def _boom(cls: str, msg: str, argc: int, where: str):
     with _TL:
         TRUTH_ALL.append({"where": where, "type": type(exc).__name__, "text": str(exc),
                           "kind": getattr(exc, "error_kind", None)})
-    raise exc
+    _raise(exc, cls.split("+")[1:])
 
 
 def _note(where: str) -> None:
@@ -211,13 +269,34 @@ def new_server() -> RpcServer:
 class PipeWorld:
     """One real pipe connection served by RpcServer.serve in a thread; re-created on demand."""
 
-    def __init__(self, server: RpcServer | None = None) -> None:
+    def __init__(self, server: RpcServer | None = None, pair: str = "pipe", hook: bool = False) -> None:
         self.server = server or new_server()
+        if hook:
+            install_raising_hook(self.server)
+        self.pair = pair
         self.died: list = []
+        self.shm = None
         self._open()
 
     def _open(self) -> None:
-        self.ct, self.st = make_pipe_pair()
+        if self.pair == "unix":
+            from vgi_rpc.rpc import make_unix_pair
+
+            self.ct, self.st = make_unix_pair()
+        elif self.pair == "tcp":
+            from vgi_rpc.rpc import make_tcp_pair
+
+            self.ct, self.st = make_tcp_pair()
+        elif self.pair == "shm":
+            from vgi_rpc.rpc import ShmPipeTransport
+            from vgi_rpc.shm import ShmSegment
+
+            if self.shm is None:
+                self.shm = ShmSegment.create(4 * 1024 * 1024)
+            c, s_ = make_pipe_pair()
+            self.ct, self.st = ShmPipeTransport(c, self.shm), ShmPipeTransport(s_, self.shm)
+        else:
+            self.ct, self.st = make_pipe_pair()
         self.died = []
 
         def serve():
@@ -246,7 +325,37 @@ class PipeWorld:
             self.st.close()
         except Exception:  # noqa: BLE001
             pass
+        if self.shm is not None and not self.th.is_alive():
+            try:
+                self.shm.close()
+                self.shm.unlink()
+            except Exception:  # noqa: BLE001
+                pass
+            self.shm = None
         return not self.th.is_alive()
+
+
+class RaisingHook:
+    """A dispatch hook (the otel / sentry extension point) that misbehaves: start raises on every third call, end
+    raises always.  The framework promises such failures never change what the client sees."""
+
+    def __init__(self) -> None:
+        self.n = 0
+
+    def on_dispatch_start(self, info, auth, transport_metadata, kwargs):
+        self.n += 1
+        if self.n % 3 == 0:
+            raise RuntimeError("hook start failed")
+        return self.n
+
+    def on_dispatch_end(self, token, info, error, *, stats=None):
+        raise RuntimeError("hook end failed")
+
+
+def install_raising_hook(server: RpcServer) -> None:
+    from vgi_rpc.rpc._common import _register_dispatch_hook
+
+    server._dispatch_hook = _register_dispatch_hook(server._dispatch_hook, RaisingHook())
 
 
 class RecordingClient:
@@ -291,18 +400,23 @@ class HttpWorld:
     """In-process HTTP deployment.  workers=2: two apps over two RpcServer instances sharing the token key, requests
     alternate between them (every continuation of a stream lands on the worker that did not serve the turn before)."""
 
-    def __init__(self, server: RpcServer | None = None, workers: int = 1, **kw) -> None:
+    def __init__(self, server: RpcServer | None = None, workers: int = 1, hook: bool = False, plain: bool = False,
+                 **kw) -> None:
         from vgi_rpc.http import http_connect
         from vgi_rpc.http._testing import make_sync_client
 
         self.server = server or new_server()
+        if hook:
+            install_raising_hook(self.server)
+        if plain:
+            kw["compression_level"] = None          # no response compression on the server ...
         self.inners = [make_sync_client(self.server, token_key=b"k" * 32, **kw)]
         for _ in range(workers - 1):
             self.inners.append(make_sync_client(new_server(), token_key=b"k" * 32, **kw))
         self.inner = self.inners[0] if workers == 1 else AlternatingClient(self.inners)
         self.client = RecordingClient(self.inner)
         self.after_post = None            # optional hook run after every request of the main client
-        self._cm = http_connect(ErrSvc, client=self.client)
+        self._cm = http_connect(ErrSvc, client=self.client, **({"compression_level": None} if plain else {}))   # ... nor of requests
         self.px = self._cm.__enter__()
 
     def close(self) -> None:
@@ -329,7 +443,7 @@ def http_response_facts(rec: dict) -> dict:
 
 # ------------------------------------------------------------------------------------------ running one call
 def run_call(px, shape: str, cls: str, msg: str, argc: int, site: str, ops: list[str], http: bool,
-             on_events: list | None = None) -> dict:
+             on_events: list | None = None, mode: str = "iter") -> dict:
     """Drive one call through a real client proxy.  ops for streams: "t" one tick/exchange, "i" iterate to the end,
     "c" close, "x" cancel.  Returns the client-side events: [kind, payload...]."""
     ev: list = []
@@ -374,7 +488,16 @@ def run_call(px, shape: str, cls: str, msg: str, argc: int, site: str, ops: list
                 ti += 1
                 tag = f"tick{ti}"
                 if producer:
-                    if http:
+                    if mode == "token" and http:
+                        # the resumable-relay entry point: one batch + continuation token per call
+                        def _nwt():
+                            ab, _tok = sess.next_with_token()
+                            if ab is None:
+                                raise StopIteration
+                            return ab
+
+                        r = guard(_nwt, tag)
+                    elif http or mode == "foriter":
                         if it is None:
                             it = iter(sess)
                         r = guard(lambda: next(it), tag)
